@@ -1094,6 +1094,29 @@ K_MODEL_OBJREF = "C15-model-level-object-ref"
 K_KEYWORD_GLOBAL = "C15-keyword-named-like-global"
 K_NONFINITE = V.K_NONFINITE
 
+
+
+def _active_keys():
+    """the trigger keys that still stand for a `status: known` finding; shapes of repaired findings are
+    generated like any other shape"""
+    import json as _json
+    import os as _os
+    path = _os.path.join(_os.path.dirname(_os.path.dirname(_os.path.dirname(_os.path.abspath(__file__)))),
+                         "known_findings.json")
+    try:
+        fs = _json.load(open(path))["findings"]
+    except Exception:       # noqa: BLE001
+        return None
+    return set(f.get("key") or f["id"] for f in fs if f.get("status") == "known")
+
+
+_ACTIVE = _active_keys()
+
+
+def _only_active(keys):
+    return keys if _ACTIVE is None else set(k for k in keys if k in _ACTIVE)
+
+
 import re as _re
 _PAREN_NAME = _re.compile(r"(?<![\w\)\]])\(\s*[A-Za-z_]\w*\s*\)")
 
@@ -1184,7 +1207,7 @@ def source_triggers(src, cells_names=()):
     names = set(n.id for n in ast.walk(fn) if isinstance(n, ast.Name))
     if kws & names:
         res.add(K_KEYWORD_GLOBAL)
-    return res
+    return _only_active(res)
 
 
 def desc_triggers(desc):
@@ -1255,5 +1278,5 @@ def desc_triggers(desc):
         collect(sp, set())
         for src in srcs:
             keys |= source_triggers(src, all_cells)
-        res[".".join(path)] = keys | model_keys
+        res[".".join(path)] = _only_active(keys | model_keys)
     return res
